@@ -449,8 +449,8 @@ def mk_case(tree, ref, family, rng, drop=False, tag=''):
             'drop': drop, 'rm': rng.randrange(64), 'extra': extras, 'tag': tag}
 
 
-def gen_cases(rng, tier, ctx):
-    ntrees = {'quick': 170, 'thorough': 2200}[tier]
+def gen_cases(rng, tier, ctx, every_constraint=False):
+    ntrees = {'quick': 150, 'thorough': 2200}[tier]
     cases = []
     for t in range(ntrees):
         g, tree, ref = gen_tree(rng, rng.choice([2, 3, 3, 4]))
@@ -459,10 +459,12 @@ def gen_cases(rng, tier, ctx):
         if rng.random() < 0.5:
             cases.append(mk_case(tree, ref, 'removed', rng))
         if g.visible:
-            cid = rng.choice(g.visible)
-            cases.append(mk_case(violate(tree, cid), ref, 'exact', rng, tag='violate1'))
-            if rng.random() < 0.3:
-                cases.append(mk_case(violate(tree, cid), ref, 'removed', rng, tag='violate1'))
+            vis = list(g.visible)
+            rng.shuffle(vis)
+            for cid in (vis if every_constraint else vis[:2]):
+                cases.append(mk_case(violate(tree, cid), ref, 'exact', rng, tag='violate1'))
+                if rng.random() < 0.2:
+                    cases.append(mk_case(violate(tree, cid), ref, 'removed', rng, tag='violate1'))
         if rng.random() < 0.6:
             ref2 = dict(ref)
             for x in rng.sample(TOP, rng.choice([1, 2])):
@@ -664,7 +666,7 @@ def search_failing(ctx, broken):
     """the specification oracle (check_spec, evaluated in Coq) against the implementation on a larger stream"""
     import random
     rng = random.Random(ctx.get('seed', 0) * 7919 + 3)
-    cases = gen_cases(rng, 'quick', ctx)
+    cases = gen_cases(rng, 'quick', ctx, every_constraint=True)
     obs = [run_impl(c) for c in cases]
     terms = [to_coq(c, o) for c, o in zip(cases, obs)]
     wd = os.path.join(ctx['workdir'], 'search')
